@@ -87,7 +87,9 @@ func specMs(d time.Duration) float64 { return ConvertDurationToMs(d) }
 
 //@ func TracerouteSerial
 //@ safety C03 C04 C05 C10
-//@ modifies *, ghost clock, ghost sendN, ghost sendLog, ghost sendClock
+// (the engine writes only its own results table: in particular it never edits a reply it was handed — IsDest, IP and RTT
+// of a hop are exactly what the driver reported for that reply)
+//@ modifies elemtype(*ProbeResponse), ghost clock, ghost sendN, ghost sendLog, ghost sendClock
 //@ ghost sendN Int
 //@ ghost sendLog (Array Int Int)
 //@ ghost sendClock (Array Int Int)
@@ -135,10 +137,10 @@ func specMs(d time.Duration) float64 { return ConvertDurationToMs(d) }
 //@ requires[pre.ghost]        sendN >= 0
 //@ ensures[ghost.mono]        sendN >= old(sendN)
 //@ ensures[C10.par.atom]      ret1 != nil ==> ret0 == nil
-//@ ensures[C03.par.len]       ret1 == nil ==> len(ret0) >= 1 && len(ret0) <= int(p.MaxTTL)-int(p.MinTTL)+1
+//@ ensures[C03+C07.par.len]       ret1 == nil ==> len(ret0) >= 1 && len(ret0) <= int(p.MaxTTL)-int(p.MinTTL)+1
 //@ ensures[C03+C01.par.ttl]   ret1 == nil ==> forall(k, 0, len(ret0), ret0[k] != nil ==> int(ret0[k].TTL) == int(p.MinTTL)+k)
-//@ ensures[C03.par.onlylast]  ret1 == nil ==> forall(k, 0, len(ret0)-1, !specIsDest(ret0[k]))
-//@ ensures[C03.par.extent]    ret1 == nil ==> specIsDest(ret0[len(ret0)-1]) || len(ret0) == int(p.MaxTTL)-int(p.MinTTL)+1
+//@ ensures[C03+C07.par.onlylast]  ret1 == nil ==> forall(k, 0, len(ret0)-1, !specIsDest(ret0[k]))
+//@ ensures[C03+C07.par.extent]    ret1 == nil ==> specIsDest(ret0[len(ret0)-1]) || len(ret0) == int(p.MaxTTL)-int(p.MinTTL)+1
 //@ ensures[C19.par.valid]     ret1 == nil ==> p.MinTTL >= 1 && p.MinTTL <= p.MaxTTL
 //@ ensures[C06+C02.par.order]     (sendN == old(sendN) || sendN - old(sendN) <= int(p.MaxTTL)-int(p.MinTTL)+1) && forall(k, old(sendN), sendN, sel(sendLog, k) == int(p.MinTTL) + (k - old(sendN)))
 //@ ensures[C06.par.pace]      forall(k, old(sendN)+1, sendN, sel(sendClock, k) >= sel(sendClock, k-1) + int(p.SendDelay))
